@@ -221,10 +221,12 @@ boost::optional<ndsize_t> getSampledIndex(const double position, const double of
     if (le < 0.0) {
         le = 0.0;
     }
-    while (le > 0.0 && sampledCoordinate(le, offset, sampling_interval) > position && le - 1.0 != le) {
+    // (the estimate is off by at most one or two; the bound also ends the search on degenerate axes whose
+    // interval is below the resolution of the offset, where neighbouring coordinates coincide)
+    for (int k = 0; k < 4 && le > 0.0 && sampledCoordinate(le, offset, sampling_interval) > position; k++) {
         le -= 1.0;
     }
-    while (sampledCoordinate(le + 1.0, offset, sampling_interval) <= position && le + 1.0 != le) {
+    for (int k = 0; k < 4 && sampledCoordinate(le + 1.0, offset, sampling_interval) <= position; k++) {
         le += 1.0;
     }
     bool equals = sampledCoordinate(le, offset, sampling_interval) == position;
